@@ -107,6 +107,15 @@ def sessionHandler (op : String) (args : List String) : Option String :=
     pure (match appendArchiveEncoded b cfg hcfg ms with
       | none => "none"
       | some r => toHex r)
+  | "ws.eaops", [base, hcoders, hstages, hbs, en, coders, mm, stages, members] => do
+    let b ← parseHex base
+    let chain ← parseWStages stages
+    let mmap ← parseBits mm
+    let cs ← (if coders = "-" then some [] else (coders.splitOn "|").mapM parseCoderS)
+    let ms ← (if members = "." then some [] else (members.splitOn ";").mapM parseWMember)
+    let cfg : WConfig Bytes := { coders := cs, methodsMap := mmap, chain := chain, enableDigests := ← parseBool en }
+    let hcfg : HConfig Bytes := { coders := ← (hcoders.splitOn "|").mapM parseCoderS, chain := ← parseWStages hstages, blocksize := ← hbs.toNat? }
+    pure (showOps (appendSessionOpsEncoded b cfg hcfg ms))
   | "ws.ops", [en, coders, mm, stages, members] => do
     let chain ← parseWStages stages
     let mmap ← parseBits mm
